@@ -203,6 +203,9 @@ Do(objs, c) ==
             ELSE LET o == objs[c.obj] IN Yes(With(objs, c.obj, [o EXCEPT !.b = <<>>, !.r = <<>>]), [bytes |-> s.bytes])
       \* ---- pure observations of a cell (idempotent, change nothing)
       [] c.op = "observe" -> Peek(objs, Unit)
+      \* a cell read by one of the library's own parsers (dictionary, augmented dictionary, message, account, state-init, VM stack):
+      \* whatever the parser makes of it, and whatever is then read from what it returned, every object stays as it is
+      [] c.op = "parse_as" -> Unspec
       \* a cell built outside the pool is adopted as it is observed (used for very deep chains)
       [] c.op = "adopt" -> Unspec
       [] c.op = "forget"  -> Yes([i \in (DOMAIN objs) \ c.ids |-> objs[i]], Unit)
